@@ -321,7 +321,7 @@ carquet_reader_t* carquet_reader_open_buffer(
 
     /* Get footer size */
     uint32_t footer_size = carquet_read_u32_le(end - 8);
-    if (footer_size > size - 8) {
+    if (footer_size > size - 12) {
         carquet_arena_destroy(&reader->arena);
         free(reader);
         CARQUET_SET_ERROR(error, CARQUET_ERROR_INVALID_FOOTER, "Footer size too large");
